@@ -99,6 +99,25 @@ func extractC11Wire(l *lean, issF, verF *ast.File) {
 	}
 	l.def("entryLiteral", "List String", leanStrList(lit), lit)
 
+	// Entry(): the key and the value of every Where / UpdateColumn / First / Last in the method, in source order (which row the
+	// counter UPDATE addresses: the LOADED record's subject id, not a URL recomputed from the current configuration)
+	var keys []string
+	if fn := c11Method(issF, "StatusList2021", "Entry"); fn != nil {
+		ast.Inspect(fn.Body, func(n ast.Node) bool {
+			if ce, ok := n.(*ast.CallExpr); ok {
+				if se, ok := ce.Fun.(*ast.SelectorExpr); ok && (se.Sel.Name == "Where" || se.Sel.Name == "UpdateColumn") {
+					var a []string
+					for _, y := range ce.Args {
+						a = append(a, c11Call(y))
+					}
+					keys = append(keys, se.Sel.Name+"("+strings.Join(a, ",")+")")
+				}
+			}
+			return true
+		})
+	}
+	l.def("entryUpdateKey", "List String", leanStrList(keys), keys)
+
 	// every strconv.Atoi / strconv.Itoa call in the two files, with the enclosing function
 	var sites []string
 	for _, f := range []*ast.File{issF, verF, typF} {
